@@ -464,6 +464,11 @@ func (e *Exec) loopHead(fr *frame, st *State, li *loopInfo, c *Contract, setVari
 		// touch: every component known so far
 		e.havocAllHeap(st)
 	}
+	// earlier iterations may have allocated: the allocation counter is arbitrary (not smaller) at the head —
+	// before the havocked locals are constrained to be well-typed, so that they may refer to such objects
+	na := e.smt.fresh("alloc", SInt)
+	e.assume(st, tLe(st.alloc, na))
+	st.alloc = na
 	var allocs []*ssa.Alloc
 	for a := range ms.cells {
 		allocs = append(allocs, a)
@@ -536,9 +541,6 @@ func (e *Exec) loopHead(fr *frame, st *State, li *loopInfo, c *Contract, setVari
 			}
 		}
 	}
-	na := e.smt.fresh("alloc", SInt)
-	e.assume(st, tLe(st.alloc, na))
-	st.alloc = na
 	var variants []Term
 	for _, cl := range clauses {
 		if cl.GenFn == "" || cl.Kind == "after" {
